@@ -245,6 +245,24 @@ func (sh shape) otherOuter() []xml.Token {
 type prebuilt struct {
 	start xml.StartElement
 	toks  []xml.Token
+	inner []xml.Token // the content alone (nil: built afresh for every call)
+}
+
+// asDecoded replaces the stored tokens by what an xml.Decoder reports for the
+// same element (copied, as an application keeps a payload it received):
+// namespaced names carry their xmlns declaration as an attribute.
+func (p *prebuilt) asDecoded() {
+	b, err := xu.Render(&xu.SliceReader{Toks: p.toks})
+	if err != nil {
+		panic("c05: rendering stored tokens failed: " + err.Error())
+	}
+	toks, err := xu.Tokens(xml.NewDecoder(strings.NewReader(string(b))))
+	if err != nil || len(toks) < 2 {
+		panic(fmt.Sprintf("c05: decoding stored tokens failed: %v", err))
+	}
+	p.toks = toks
+	p.start = toks[0].(xml.StartElement).Copy()
+	p.inner = toks[1 : len(toks)-1]
 }
 
 func (sh shape) prebuild(streamNS string) *prebuilt {
@@ -266,6 +284,9 @@ func doTransmit(s *xmpp.Session, form string, sh shape, streamNS string, pre ...
 	start := sh.start(streamNS)
 	if len(pre) > 0 {
 		start, toks = pre[0].start, pre[0].toks
+		if stored := pre[0].inner; stored != nil {
+			inner = func() xml.TokenReader { return reader(stored) }
+		}
 	}
 	plainNS := sh.ns == "" || sh.ns == "STREAM"
 	switch form {
@@ -458,6 +479,13 @@ func shapesBodyN(c *nd.Ctx, calls int) (res nd.Result) {
 			return nd.Result{Skip: true}
 		}
 		pre := sh.prebuild(streamNS)
+		if c.Choose(2, "stored-tokens-are-what-a-decoder-reported") == 1 {
+			if sh.xmlnsAttr {
+				return nd.Result{Skip: true} // a decoder reports the declaration by itself
+			}
+			pre.asDecoded()
+			desc += " (stored tokens as a decoder reports them)"
+		}
 		tag = "reused-arguments:"
 		desc += fmt.Sprintf(" (call %d of %d with the same argument values)", calls, calls)
 		pn = nd.Catch(func() {
